@@ -77,6 +77,43 @@ pub fn exec(op: &str, args: &[&str], out: &mut Out) -> Option<()> {
                 && comps[0] == Component::Root
                 && comps[1..].iter().zip(&rt).all(|(c, t)| matches!(c, Component::Token(x) if x.encoded() == *t));
             out.check(ok, "C04", || format!("components({s:?}) is not Root followed by the tokens"));
+            // iterator adaptors on a PARTIALLY consumed iterator: after k calls of next() the rest behaves like the rest of the list
+            if n <= 12 {
+                for k in 0..=n + 2 {
+                    let mut ti = p.tokens();
+                    let mut ci = p.components();
+                    for _ in 0..k {
+                        ti.next();
+                        ci.next();
+                    }
+                    let trest: Vec<&str> = rt.iter().skip(k).copied().collect();
+                    let crest = (n + 1).saturating_sub(k);
+                    let (mut t2, mut t3, mut c2, mut c3) = (p.tokens(), p.tokens(), p.components(), p.components());
+                    for _ in 0..k {
+                        t2.next();
+                        t3.next();
+                        c2.next();
+                        c3.next();
+                    }
+                    let (tlo, thi) = ti.size_hint();
+                    let (clo, chi) = ci.size_hint();
+                    let ok = t2.count() == trest.len()
+                        && t3.last().map(|t| t.encoded().to_string()) == trest.last().map(|t| t.to_string())
+                        && tlo <= trest.len()
+                        && thi.map_or(true, |h| h >= trest.len())
+                        && c2.count() == crest
+                        && clo <= crest
+                        && chi.map_or(true, |h| h >= crest)
+                        && match c3.last() {
+                            None => crest == 0,
+                            Some(Component::Root) => crest == 1 && k == 0,
+                            Some(Component::Token(t)) => crest >= 1 && Some(t.encoded()) == rt.last().copied(),
+                        }
+                        && ti.next().map(|t| t.encoded().to_string()) == trest.first().map(|t| t.to_string())
+                        && ti.nth(1).map(|t| t.encoded().to_string()) == trest.get(2).map(|t| t.to_string());
+                    out.check(ok, "C04", || format!("count / last / size_hint / nth of tokens() or components() of {s:?} after {k} calls of next()"));
+                }
+            }
             let it: Vec<String> = (&*p).into_iter().map(|t| t.encoded().to_string()).collect();
             out.check(it == rt, "C04", || format!("IntoIterator of {s:?}"));
             let back = PointerBuf::from_tokens(p.tokens());
